@@ -61,10 +61,12 @@ TEXT = {
                       "extraction (windows_rc); for packed k-mers of every shipped type rc refines the string rc (ladders extracted from kmer.rs, "
                       "all five widths), is an involution on storage, min_rc is the lexicographic minimum and is the same for x and rc x, "
                       "min_rc_flip/is_palindrome are characterised; for extension sets all 256 values are checked by the kernel (sides swapped, "
-                      "bases complemented, involution) against the masks extracted from lib.rs. Not yet proved: the DnaString/Lmer/slice "
-                      "instances (modelled, executed on every run).",
+                      "bases complemented, involution) against the masks extracted from lib.rs. DnaString, Lmer (every capacity) and "
+                      "slices: rc is the reversed complemented base vector and rc∘rc is the identity on values (C12_dnaString, C12_lmer, "
+                      "C12_slice, from the C14/C17/C15 refinements); for any container of a string and any container of its reverse complement "
+                      "the i-th k-mer of the latter is rc of the (n-K-i)-th k-mer of the former (C12_kmers_of_rc).",
         "design_ref": "DESIGN.md section 6, C12",
-        "level_note": COMMON_NOTE + "Partial: container instances by execution only.",
+        "level_note": COMMON_NOTE,
         "technique": "Lean 4 proof (list algebra, bit-level refinement, exhaustive kernel decision over 256 extension sets) + differential correspondence",
     },
     "C13": {
@@ -73,11 +75,11 @@ TEXT = {
                       "reverse-complemented slices at every offset, and the byte wrappers are faithful containers; for every faithful container "
                       "the rolling KmerIter yields exactly max(0, n-K+1) k-mers in order, the i-th spelling bases i..i+K and equal (as a storage "
                       "word) to get_kmer(i); KmerExtsIter pairs each k-mer with the bits of its true flanking bases and uses the caller's "
-                      "extensions only at the two ends; first/last/term accessors; kmers_from_bytes/ascii (C10). Lmer's get_kmer uses the "
-                      "same proved block walk; its length-byte bookkeeping is listed as partial. All container x k-mer-type pairs are "
+                      "extensions only at the two ends; first/last/term accessors; kmers_from_bytes/ascii (C10). Lmer of every capacity is a "
+                      "faithful container too (C13_lmer, from C17's refinement). All container x k-mer-type pairs are "
                       "compared with the crate, raw storage word by raw storage word, on every run.",
         "design_ref": "DESIGN.md section 6, C13",
-        "level_note": COMMON_NOTE + "Partial: Lmer as a faithful container (C17 multi-word refinement).",
+        "level_note": COMMON_NOTE,
         "technique": "Lean 4 proof (block-walk loop invariant, iterator state machines by induction over positions, for any faithful container) + differential correspondence over all containers",
     },
     "C14": {
@@ -106,13 +108,16 @@ TEXT = {
         "technique": "Lean 4 proof (refinement of views to substrings of the base vector, induction over view histories) + differential correspondence with executable predicate",
     },
     "C17": {
-        "level_text": "Proved (word level): block_get/block_set are the Kmer32 accessors (single-base writes change exactly the addressed base of "
-                      "the word), new(len) stores and reports len. The multi-word packed write with its length-byte protection, rc and get_kmer "
-                      "are modelled bit for bit for 1..6 words and executed with raw words observed after every step (runs crossing word "
-                      "boundaries and touching the length word are favoured).",
+        "level_text": "Proved for every word count n >= 1: new(len) is len A's and from_slice(seq) is seq for every length up to max_len = 32n-4; "
+                      "single-base writes, packed writes of 1..32 bases (first-word and second-word masks, runs crossing a word boundary, runs in "
+                      "the word holding the length byte: the 0xFF protection is shown redundant in range and the length lanes are never touched) "
+                      "and rc (loop invariant over words) change exactly the addressed bases, keep the stored length and word count, and never "
+                      "panic in range (C17_history); len/get/to_bytes are those of the string; same capacity and same bases imply the same words "
+                      "(derived ==/Hash); get_kmer and the iterators are those of the string (C17_faithful with C13); rc∘rc = id (C12_lmer). "
+                      "Raw words are compared with the crate after every step of random histories for 1..6 words.",
         "design_ref": "DESIGN.md section 6, C17",
-        "level_note": COMMON_NOTE + "Partial: multi-word theorems missing.",
-        "technique": "Lean 4 proof (word-level refinement) + differential correspondence with executable predicate over write histories",
+        "level_note": COMMON_NOTE,
+        "technique": "Lean 4 proof (lane-level refinement of the word array, invariant by induction over write histories) + differential correspondence over write histories",
     },
     "C16": {
         "level_text": "Proved by kernel decision over all 256 byte values, against the tables regenerated from lib.rs on every run: base_to_bits maps "
